@@ -324,10 +324,16 @@ fn run_strings(ctx: &mut Ctx) {
 /// key length moved by a few bytes (so that a boundary lands inside a character)
 fn run_wide(ctx: &mut Ctx) {
     let mut k = 0usize;
-    for n in [3usize, 15, 16, 17, 31, 32, 33, 40] {
-        let m = M::Obj((0..n).map(|i| (format!("k{i:03}é"), if i % 3 == 0 { M::Str("é".into()) } else { M::Num(N::U(i as u64)) })).collect());
+    let mut docs: Vec<(M, usize, usize)> = vec![]; // (document, entry-word area, number of length fields to rewrite)
+    for n in [3usize, 7, 8, 9, 15, 16, 17, 31, 32, 33, 40] {
+        // mixed values, all-string values, and arrays of strings (a tail that is one UTF-8 block)
+        docs.push((M::Obj((0..n).map(|i| (format!("k{i:03}é"), if i % 3 == 0 { M::Str("é".into()) } else { M::Num(N::U(i as u64)) })).collect()), 4 + 8 * n, n));
+        docs.push((M::Obj((0..n).map(|i| (if i % 2 == 0 { format!("ñ{i:02}") } else { format!("a{i:02}") }, M::Str(if i % 3 == 0 { "é".into() } else { format!("{i}") }))).collect()), 4 + 8 * n, 2 * n));
+        docs.push((M::Arr((0..n).map(|i| M::Str(if i % 2 == 0 { "é".into() } else { "ab".into() })).collect()), 4 + 4 * n, n));
+    }
+    for (m, area, nlen) in docs {
+        let n = nlen;
         let base = m.enc();
-        let area = 4 + 8 * n;
         let mut cases: Vec<Vec<u8>> = vec![];
         for i in 0..area {
             for bit in 0..8 {
